@@ -113,6 +113,12 @@ def excIs (e : Exc) (cls : String) : Bool :=
   else if cls == "Exception" then e != .cancelled
   else false
 
+/-- the three event lists of the block; each has one destination here, and an event of the wrong kind sent
+    to a list is an error of the tie (`Exc.other`) -/
+inductive Dest where
+  | onCancel | onError | onSuccess
+  deriving DecidableEq, Repr
+
 /-- `stop()` has queued the sentinel; the model also arms the stop_timeout clock here (the simulator
     starts it right after the `stop()` calls) -/
 def markStopped (c : Cfg) (s : State) : State :=
@@ -148,7 +154,7 @@ def cancelJob (c : Cfg) (j : Job) (s : State) : State :=
     (`await task`, `await self._output_coro_wrapper(data)`): time passes, the run comes to its end, puts
     arrive, the block is stopped ... -- the theorems hold for EVERY such `W`.
     `queue.get()` on an empty queue of a block that is not stopped never returns (`diverge`). -/
-def ctrlP (c : Cfg) (W : State → State) : CtrlPrims State Exc Job Job Unit where
+def ctrlP (c : Cfg) (W : State → State) : CtrlPrims State Exc Job Job Dest where
   queueGet := fun s =>
     match s.queue with
     | j :: q => ({ s with queue := q }, .next (some j))
@@ -164,9 +170,9 @@ def ctrlP (c : Cfg) (W : State → State) : CtrlPrims State Exc Job Job Unit whe
   createTask
     | some j => fun s => (startRun s j, .next j)
     | none => M.raise .other
-  sendCancel _
-    | some j => M.modify fun s => emit s (.canc j)
-    | none => M.pure ()
+  sendCancel d
+    | some j => if d = .onCancel then M.modify fun s => emit s (.canc j) else M.raise .other
+    | none => M.raise .other
   runWrapper
     | some j => M.modify fun s => W (startRun s j)
     | none => M.raise .other
@@ -206,14 +212,14 @@ theorem ctrlP_get_sentinel (c : Cfg) (W : State → State) (s : State)
 
 /-- the on_cancel events of one discarded item (one destination) -/
 theorem cancel_for_single (c : Cfg) (W : State → State) (s : State) (j : Job) :
-    ctrl_cancel_for3 (ctrlP c W) [()] (some j) [()] s = (emit s (.canc j), .next ()) := by
+    ctrl_cancel_for3 (ctrlP c W) [.onCancel] (some j) [.onCancel] s = (emit s (.canc j), .next ()) := by
   simp [ctrl_cancel_for3, ctrlP, M.bind, M.modify, M.pure]
 
 /-- the drain loop of `_ctrl_cancel`: everything queued is taken out, each item discards the one before it
     (reported through on_cancel), the sentinel ends the loop with `stop = True` -/
 theorem cancel_drain_loop (c : Cfg) (W : State → State) (s : State) (j : Job) (q : List Job) (fuel : Nat)
     (hq : s.queue = q) (hf : q.length < fuel) :
-    ctrl_cancel_loop2 (ctrlP c W) [()] () fuel false (some j) s
+    ctrl_cancel_loop2 (ctrlP c W) [.onCancel] () fuel false (some j) s
       = ({ discards s j q with queue := [] }, .next (s.stopped, some (lastJob j q))) := by
   induction q generalizing s j fuel with
   | nil =>
@@ -247,7 +253,7 @@ theorem cancel_drain_loop (c : Cfg) (W : State → State) (s : State) (j : Job) 
 /-- the part of one `_ctrl_cancel` iteration after the task has been dealt with: drain, start the last -/
 theorem cancel_tail (c : Cfg) (W : State → State) (hm : c.mode = Mode.cancel) (s2 : State) (j : Job)
     (fuel : Nat) (hr : s2.runs = []) (hf : s2.queue.length < fuel) :
-    (M.bind (ctrl_cancel_loop2 (ctrlP c W) [()] () fuel false (some j)) fun (stop, data) =>
+    (M.bind (ctrl_cancel_loop2 (ctrlP c W) [.onCancel] () fuel false (some j)) fun (stop, data) =>
       M.bind ((ctrlP c W).createTask data) fun task_ =>
       M.pure (LoopCtl.next, (data, stop, (some task_)))) s2
     = (settle c (requeue j s2),
@@ -275,7 +281,7 @@ theorem cancelJob_is_settle (c : Cfg) (hm : c.mode = Mode.cancel) (s : State) (r
 /-- the loop of `_ctrl_start` over everything queued before the sentinel -/
 theorem start_loop (c : Cfg) (W : State → State) (s : State) (q : List Job) (data : Option Job) (fuel : Nat)
     (hq : s.queue = q) (hs : s.stopped = true) (hf : q.length < fuel) :
-    ctrl_start_loop1 (ctrlP c W) [()] () fuel data s
+    ctrl_start_loop1 (ctrlP c W) [.onCancel] () fuel data s
       = (startAll { s with queue := [] } q, .next none) := by
   induction q generalizing s data fuel with
   | nil =>
@@ -315,7 +321,7 @@ def addOut (d : Int) (s : State) : State :=
 def sleepGuard (c : Cfg) (s : State) : State := { s with now := s.now + c.guard }
 
 /-- the leaves of `_output_coro` (which does not await itself) -/
-def runP0 (c : Cfg) (oc : Outcome) : RunPrims State Exc Job Unit Unit where
+def runP0 (c : Cfg) (oc : Outcome) : RunPrims State Exc Job Unit Dest where
   awaitCoro j := fun s =>
     let s0 := emit s (.start j)
     match oc with
@@ -326,15 +332,21 @@ def runP0 (c : Cfg) (oc : Outcome) : RunPrims State Exc Job Unit Unit where
   excIs := excIs
   guardPositive := decide (0 < c.guard)
   shieldedGuardSleep := M.modify (sleepGuard c)
-  sendCancel _ j := M.modify fun s => emit s (.canc j)
-  sendError _ _ j := M.modify fun s => emit s (.err j)
-  sendSuccess _ _ j := M.modify fun s => emit s (.succ j)
+  sendCancel d j := if d = .onCancel then M.modify fun s => emit s (.canc j) else M.raise .other
+  sendError d _ j := if d = .onError then M.modify fun s => emit s (.err j) else M.raise .other
+  sendSuccess d _ j := if d = .onSuccess then M.modify fun s => emit s (.succ j) else M.raise .other
   addOutput d := M.modify (addOut d)
   runCoro _ := M.pure ()
 
 /-- for the wrapper, `await self._output_coro(data)` is the translated `_output_coro` itself -/
-def runP (c : Cfg) (oc : Outcome) : RunPrims State Exc Job Unit Unit :=
-  { runP0 c oc with runCoro := fun j => output_coro (runP0 c oc) [()] [()] [()] j }
+def runP (c : Cfg) (oc : Outcome) : RunPrims State Exc Job Unit Dest :=
+  { runP0 c oc with runCoro := fun j => output_coro (runP0 c oc) [.onCancel] [.onError] [.onSuccess] j }
+
+/-- the guard sleep is taken iff guard_time > 0 -/
+def guardPart (c : Cfg) (s : State) : State := if 0 < c.guard then sleepGuard c s else s
+
+/-- the wrapper with an arbitrary `_output_coro` (any program: it may raise, e.g. be cancelled) -/
+def runPwith (c : Cfg) (oc : Outcome) (body : Job → M State Exc Unit Unit) : RunPrims State Exc Job Unit Dest :=
+  { runP0 c oc with runCoro := body }
 
 end Edzed.TrTie
-
